@@ -110,12 +110,15 @@ def realize(desc, d: Path):
                 r = [t, 0.01 * x, 60 + 0.01 * y, 1.0]
             elif pos == "rowgap":  # the LAST row lacks its Y (and Z) value
                 r = [t, x, y, 1.0] if j + 1 < len(desc["rel_times"]) else [t, x]
+            elif pos == "llgap":  # positions by longitude / latitude, the LAST row lacks its latitude (and Z)
+                r = [t, 0.01 * x, 60 + 0.01 * y, 1.0] if j + 1 < len(desc["rel_times"]) else [t, 0.01 * x]
             else:
                 r = [t, 1.0]
             rows.append(r)
         rf.write_release(rfile, rows)
     names = {"xy": ["release_time", "X", "Y", "Z"], "lonlat": ["release_time", "lon", "lat", "Z"],
-             "rowgap": ["release_time", "X", "Y", "Z"], "none": ["release_time", "Z"]}[desc["rel_pos"]]
+             "rowgap": ["release_time", "X", "Y", "Z"], "llgap": ["release_time", "lon", "lat", "Z"],
+             "none": ["release_time", "Z"]}[desc["rel_pos"]]
 
     conf = {"version": 2, "state": {}, "ibm": {}, "warm_start": {}}
     if desc["cf"] == "badversion":
@@ -323,7 +326,7 @@ def faults_of(desc):
     if desc["sec"]["release"] == "present" and desc["rel_has_key"] and not desc["rel_name_empty"] and desc["rel_file"]:
         if desc["rel_pos"] == "none":
             out.append("release rows without a position")
-        if desc["rel_pos"] == "rowgap":
+        if desc["rel_pos"] in ("rowgap", "llgap"):
             out.append("a release row without a position")
         if start is not None and stop is not None:
             sg = -1 if desc["rev"] else 1
@@ -394,7 +397,7 @@ def encode(desc, obs):
     out += [int(desc["grid_file"]), desc["imax"], desc["jmax"]]
     out += [0, 0, 0, 0, 0] if sg is None else [1] + [int(x) for x in sg]
     out += [int(desc["rel_has_key"]), int(desc["rel_name_empty"]), int(desc["rel_file"]),
-            int(desc["rel_pos"] in ("xy", "lonlat", "rowgap")), int(desc["rel_pos"] != "rowgap")]
+            int(desc["rel_pos"] in ("xy", "lonlat", "rowgap", "llgap")), int(desc["rel_pos"] not in ("rowgap", "llgap"))]
     out += opt(desc["rel_cont"])
     out += [int(desc["out_filename"])] + opt(desc["out_period"]) + [int(desc["out_ivars"])]
     files = desc["files"] if desc["forcing_matches"] else []
@@ -715,6 +718,10 @@ def f_rel_rowgap(d, rng):
     d["rel_pos"] = "rowgap"
 
 
+def f_rel_llgap(d, rng):
+    d["rel_pos"] = "llgap"
+
+
 def f_rel_missing(d, rng):
     d["rel_file"] = False
 
@@ -809,7 +816,7 @@ INJECTORS = [
     v_forcing_tight, f_swap_inside, f_swap_boundary, f_duplicate, f_swap_interior, f_dup_interior,
     f_no_start, f_no_stop, f_no_dt, f_dt_zero, f_flip, f_start_eq_stop,
     f_rel_before, f_rel_after, f_rel_at_stop, v_rel_at_start, v_rel_last_step, v_rel_cont_before, f_rel_cont_gap,
-    f_rel_nopos, f_rel_rowgap, f_rel_missing, f_rel_empty_name, f_rel_nokey,
+    f_rel_nopos, f_rel_rowgap, f_rel_llgap, f_rel_missing, f_rel_empty_name, f_rel_nokey,
     f_forcing_nomatch, f_forcing_nomatch_inferred, f_forcing_noframes, f_grid_missing,
     *[mk_sec(n, "missing") for n in ("time", "forcing", "release", "tracker", "output")],
     *[mk_sec(n, "null") for n in ("time", "forcing", "release", "tracker", "output")],
